@@ -3,7 +3,8 @@
 (* the real kernel vs. direct system calls on a twin world) with UringOps!Judge.              *)
 EXTENDS UringOps, Json, IOUtils
 Rec == ndJsonDeserialize(IOEnv.TRACE)
-Verdicts == [i \in 1..Len(Rec) |-> IF Rec[i].ev = "batch" THEN Judge(Rec[i]) ELSE ""]
+Verdicts == [i \in 1..Len(Rec) |-> IF Rec[i].ev = "batch" THEN Judge(Rec[i])
+                                   ELSE IF Rec[i].ev = "geometry" THEN JudgeGeometry(Rec[i]) ELSE ""]
 Bad == {i \in 1..Len(Rec) : Verdicts[i] # ""}
 ASSUME PrintT(<<"OPSJUDGE", ToJson([n |-> Len(Rec), bad |-> [i \in Bad |-> Verdicts[i]]])>>)
 VARIABLE x
